@@ -11,7 +11,7 @@ from __future__ import annotations
 
 import copy
 import json
-import multiprocessing as mp
+import concurrent.futures
 import os
 import random
 
@@ -34,6 +34,15 @@ ASSUMPTIONS = [
     "the model-checked lemmas over the shape universe plus per-class conformance",
     "Python's str.encode('utf-8'), float.hex, int and timedelta arithmetic are trusted",
 ]
+
+
+def pmap(fn, args: list, jobs: int = 16) -> list:
+    """Process pool that fails loudly (instead of hanging) when a worker dies."""
+    with concurrent.futures.ProcessPoolExecutor(max_workers=min(jobs, len(args))) as ex:
+        try:
+            return list(ex.map(fn, args))
+        except concurrent.futures.process.BrokenProcessPool as e:
+            raise Machinery(f"a harness worker process died while running {fn.__name__}: {e}")
 
 
 def first_diff(schema: dict, a: dict, b: dict, path: str = "") -> tuple[str, str]:
@@ -92,8 +101,7 @@ def validate_wr(chk: Check, per_class: int, props: set[str], jobs: int = 16) -> 
     slices = [(i * n // K, (i + 1) * n // K) for i in range(K)]
     args = [(os.path.join(chk.scratch, f"wr{i}.json"), slices[i], per_class, chk.seed + 1)
             for i in range(K)]
-    with mp.Pool(K) as pool:
-        infos = pool.map(codec_driver.gen_wr_shard, args)
+    infos = pmap(codec_driver.gen_wr_shard, args)
     # canaries go into shard 0
     with open(infos[0]["path"]) as f:
         shard0 = json.load(f)
@@ -350,8 +358,7 @@ def validate_rw(chk: Check, per_class: int, props: set[str], ms_timestamps: bool
     slices = [(i * n // K, (i + 1) * n // K) for i in range(K)]
     in_args = [(os.path.join(chk.scratch, f"rwin{i}.json"), slices[i], per_class, chk.seed + 3,
                 ms_timestamps) for i in range(K)]
-    with mp.Pool(K) as pool:
-        ins = pool.map(codec_driver.gen_rw_inputs, in_args)
+    ins = pmap(codec_driver.gen_rw_inputs, in_args)
     encoded = encode_with_spec(chk, [i["path"] for i in ins], jobs)
     for p, encs in encoded.items():
         bad = [e["id"] for e in encs if not e["wt"]]
@@ -359,8 +366,7 @@ def validate_rw(chk: Check, per_class: int, props: set[str], ms_timestamps: bool
             raise Machinery(f"sampler produced values outside the wire domain: {bad[:5]}")
     out_args = [(ins[i]["path"], encoded[ins[i]["path"]],
                  os.path.join(chk.scratch, f"rw{i}.json"), chk.seed + 5) for i in range(K)]
-    with mp.Pool(K) as pool:
-        infos = pool.map(codec_driver.gen_rw_shard, out_args)
+    infos = pmap(codec_driver.gen_rw_shard, out_args)
     # canary: corrupt the recorded decoded value of one passing case
     with open(infos[0]["path"]) as f:
         shard0 = json.load(f)
@@ -451,8 +457,7 @@ def _gen_inputs(chk: Check, per_class: int, seed_off: int, jobs: int = 16):
     slices = [(i * n // K, (i + 1) * n // K) for i in range(K)]
     in_args = [(os.path.join(chk.scratch, f"pin{i}.json"), slices[i], per_class,
                 chk.seed + seed_off, True) for i in range(K)]
-    with mp.Pool(K) as pool:
-        ins = pool.map(codec_driver.gen_probe_inputs, in_args)
+    ins = pmap(codec_driver.gen_probe_inputs, in_args)
     encoded = encode_with_spec(chk, [i["path"] for i in ins], jobs)
     return n, ins, encoded
 
@@ -490,8 +495,7 @@ def check_C06(chk: Check, replay: str | None) -> None:
     n, ins, encoded = _gen_inputs(chk, 8 if thorough else 2, 11)
     args = [(ins[i]["path"], encoded[ins[i]["path"]], os.path.join(chk.scratch, f"tr{i}.json"),
              chk.seed + 13, 4096 if thorough else 600) for i in range(len(ins))]
-    with mp.Pool(16) as pool:
-        infos = pool.map(codec_driver.gen_trunc_shard, args)
+    infos = pmap(codec_driver.gen_trunc_shard, args)
 
     def canaries(cases):
         donor = next(c for c in cases if len(c["probes"]) > 3)
@@ -549,8 +553,7 @@ def check_C10(chk: Check, replay: str | None) -> None:
     n, ins, encoded = _gen_inputs(chk, 6 if thorough else 2, 17)
     args = [(ins[i]["path"], encoded[ins[i]["path"]], os.path.join(chk.scratch, f"mu{i}.json"),
              chk.seed + 19, 80 if thorough else 20, 4) for i in range(len(ins))]
-    with mp.Pool(16) as pool:
-        infos = pool.map(codec_driver.gen_mut_shard, args)
+    infos = pmap(codec_driver.gen_mut_shard, args)
 
     def canaries(cases):
         out = []
